@@ -147,6 +147,45 @@ def mod_summaries(prog: Program) -> Dict[str, Set[str]]:
     return mods
 
 
+def _stable_attrs(prog: Program) -> Set[str]:
+    """attribute names of the package that are only ever bound inside `__init__` (and method names): reading them commutes with any call"""
+    cached = prog.__dict__.get("_jfsa_stable_attrs")
+    if cached is not None:
+        return cached
+    every: Set[str] = set()
+    changed: Set[str] = set()
+    for mi, ci, fn in prog.functions():
+        init = fn.name in ("__init__", "__setstate__")
+        for x in ast.walk(fn):
+            if isinstance(x, ast.Attribute):
+                every.add(x.attr)
+                if isinstance(x.ctx, (ast.Store, ast.Del)) and not init:
+                    changed.add(x.attr)
+            elif isinstance(x, ast.Subscript) and isinstance(x.ctx, (ast.Store, ast.Del)) and isinstance(x.value, ast.Attribute):
+                changed.add(x.value.attr)
+            elif isinstance(x, ast.Call) and isinstance(x.func, ast.Attribute) and isinstance(x.func.value, ast.Attribute) \
+                    and x.func.attr in ("update", "append", "extend", "insert", "remove", "pop", "clear", "add", "discard", "setdefault",
+                                        "popleft", "appendleft", "sort", "reverse"):
+                changed.add(x.func.value.attr)
+            elif isinstance(x, ast.Call) and isinstance(x.func, ast.Name) and x.func.id in ("setattr", "delattr"):
+                if mi.file.endswith("base/initializer.py"):
+                    # the Initializer swaps methods for an error raiser until `initialize` ran and puts the originals back: in a run
+                    # that does not raise, every method read is the original
+                    continue
+                if fn.name in ("__deepcopy__", "__copy__") and x.args and not (isinstance(x.args[0], ast.Name) and x.args[0].id == "self"):
+                    continue            # fills the fresh copy: construction
+                if len(x.args) >= 2 and isinstance(x.args[1], ast.Constant) and isinstance(x.args[1].value, str):
+                    if not init:
+                        changed.add(x.args[1].value)
+                else:
+                    changed |= every        # a computed attribute name: nothing is known to be stable
+                    prog.__dict__["_jfsa_stable_attrs"] = set()
+                    return set()
+    out = every - changed
+    prog.__dict__["_jfsa_stable_attrs"] = out
+    return out
+
+
 def _propagate(fn: ast.FunctionDef, prog: Optional[Program] = None) -> None:
     mods = mod_summaries(prog) if prog is not None else None
     # names declared global / nonlocal are not locals: their assignments are effects
@@ -191,11 +230,25 @@ def _propagate(fn: ast.FunctionDef, prog: Optional[Program] = None) -> None:
                 read_attrs = {x.attr for x in ast.walk(n.value) if isinstance(x, ast.Attribute)}
                 read_recv = {(ast.unparse(x.value), x.attr) for x in ast.walk(n.value) if isinstance(x, ast.Attribute)}
                 relevant = [m for m in mutation_sites if m[0] in read_attrs and (_recv_text(m[1]), m[0]) in read_recv]
+                chain_ = n.value
+                while isinstance(chain_, ast.Attribute):
+                    chain_ = chain_.value
+                is_chain = isinstance(n.value, ast.Attribute) and isinstance(chain_, ast.Name)
+                if is_chain:
+                    # a bare `obj.attr` names the object held by the attribute: changes IN that object (element stores, append, ..)
+                    # are seen through either name; only a re-binding of the attribute separates them
+                    relevant = [m for m in relevant if isinstance(m[1], ast.Attribute)]
+                bare_alias = is_chain
                 if read_attrs and self_calls:
                     # a method of the object itself may change the fields the value reads (write summaries when the program is
-                    # known, otherwise any self-call counts)
+                    # known, otherwise any self-call counts); a callable kept in an instance attribute (not a method of any class) is
+                    # a plain function without access to `self`: it cannot re-bind the attribute that a bare alias names
                     relevant = relevant + [("*", c) for c in self_calls if not any(c is x for x in ast.walk(n.value))
-                                           and (mods is None or c.func.attr not in mods or (mods[c.func.attr] & read_attrs))]
+                                           and (mods is None or (c.func.attr not in mods and not bare_alias) or
+                                                (c.func.attr in mods and (mods[c.func.attr] & read_attrs)))]
+                if relevant and prog is not None and not (read_attrs - _stable_attrs(prog)):
+                    # every attribute read is bound in constructors only (or is a method): no call can change what the value reads
+                    relevant = []
                 if relevant:
                     # allowed only if no change of these attributes lies between the definition and its last use (in evaluation
                     # order), and no loop that does not contain the definition contains both a use and a change
@@ -298,7 +351,21 @@ def _cheap(e: ast.AST) -> bool:
         return _cheap(e.value) and _cheap(e.slice)
     if isinstance(e, ast.UnaryOp):
         return _cheap(e.operand)
+    if isinstance(e, ast.Tuple) and 1 <= len(e.elts) <= 4:
+        # a small tuple display of cheap parts (tuples are immutable: no identity to preserve)
+        return all(_cheap(x) for x in e.elts)
     return False
+
+
+class _FoldTupleIndex(ast.NodeTransformer):
+    """(a, b)[0] -> a"""
+    def visit_Subscript(self, node: ast.Subscript):
+        self.generic_visit(node)
+        if isinstance(node.value, ast.Tuple) and isinstance(node.slice, ast.Constant) and isinstance(node.slice.value, int) \
+                and not isinstance(node.slice.value, bool) and -len(node.value.elts) <= node.slice.value < len(node.value.elts) \
+                and not any(isinstance(x, ast.Starred) for x in node.value.elts) and isinstance(node.ctx, ast.Load):
+            return node.value.elts[node.slice.value]
+        return node
 
 
 def _recv_text(node: ast.AST) -> str:
@@ -326,6 +393,16 @@ def _remove_stmt(root: ast.AST, stmt: ast.stmt) -> None:
                     return
 
 
+def _passthrough_vararg(fn: ast.FunctionDef) -> bool:
+    """`*args` that the body only hands on, once, as `*args` of a call"""
+    v = fn.args.vararg.arg if fn.args.vararg else None
+    if v is None:
+        return False
+    uses = [x for x in ast.walk(fn) if isinstance(x, ast.Name) and x.id == v]
+    starred = [x for x in ast.walk(fn) if isinstance(x, ast.Starred) and isinstance(x.value, ast.Name) and x.value.id == v]
+    return len(uses) == 1 and len(starred) == 1
+
+
 def _helper_kind(fn: ast.FunctionDef) -> Optional[str]:
     """
     'tail'  : arbitrary body (may return early): inlinable where the call is `return self._h(..)`, and, if it never returns a
@@ -337,7 +414,9 @@ def _helper_kind(fn: ast.FunctionDef) -> Optional[str]:
     if not body or len(body) > 40:
         return None
     static = [d for d in fn.decorator_list if isinstance(d, ast.Name) and d.id == "staticmethod"]
-    if fn.args.vararg or fn.args.kwarg or len(fn.decorator_list) != len(static):
+    if fn.args.kwarg or len(fn.decorator_list) != len(static):
+        return None
+    if fn.args.vararg and not _passthrough_vararg(fn):
         return None
     if any(isinstance(n, (ast.Yield, ast.YieldFrom, ast.Await)) for n in ast.walk(fn)):
         return None
@@ -378,10 +457,16 @@ def _decision_tree_as_value(h: ast.FunctionDef) -> ast.FunctionDef:
     out = h
     rets = [n for n in ast.walk(h) if isinstance(n, ast.Return)]
     if len(rets) > 1:
-        v = tree(body_without_docstring(h))
+        # a straight-line prefix (assignments / asserts without a return inside) may precede the decision tree
+        body = body_without_docstring(h)
+        k = 0
+        while k < len(body) and isinstance(body[k], (ast.Assign, ast.AugAssign, ast.AnnAssign, ast.Assert, ast.Expr)) \
+                and not any(isinstance(x, ast.Return) for x in ast.walk(body[k])):
+            k += 1
+        v = tree(body[k:])
         if v is not None:
             out = copy.copy(h)
-            out.body = [ast.copy_location(ast.Return(value=copy.deepcopy(v)), h.body[-1])]
+            out.body = list(body[:k]) + [ast.copy_location(ast.Return(value=copy.deepcopy(v)), h.body[-1])]
             ast.fix_missing_locations(out)
     h.__dict__["_jfsa_value_form"] = out
     return out
@@ -410,11 +495,26 @@ def _instantiate(h: ast.FunctionDef, call: ast.Call, host: ast.FunctionDef):
             bound[p_] = defaults[i - (len(ps) - len(defaults))]
         else:
             return None
+    extra: List[ast.AST] = []
+    if h.args.vararg is not None:
+        if not _passthrough_vararg(h):
+            return None
+        extra, args = args[len(ps):], args[:len(ps)]
     if kw or len(args) > len(ps):
         return None
     _COUNTER[0] += 1
     tag = f"@{h.name}#{_COUNTER[0]}"
     hb = copy.deepcopy(flat(body_without_docstring(h)))
+    if h.args.vararg is not None:
+        vname = h.args.vararg.arg
+        for c_ in [x for st_ in hb for x in ast.walk(st_) if isinstance(x, ast.Call)]:
+            new_args: List[ast.AST] = []
+            for a_ in c_.args:
+                if isinstance(a_, ast.Starred) and isinstance(a_.value, ast.Name) and a_.value.id == vname:
+                    new_args.extend(copy.deepcopy(e_) for e_ in extra)
+                else:
+                    new_args.append(a_)
+            c_.args = new_args
     mod = ast.Module(body=hb, type_ignores=[])
     local_names = set(_stores(mod)) | set(ps)
     for x in ast.walk(mod):
@@ -445,10 +545,12 @@ def _inline_helpers(prog: Program, cls: ClassInfo, fn: ast.FunctionDef, exclude:
             # a small function of the package called by name (defined in this module or imported): read where it is used
             r = prog.resolve_name(cls.module, call.func.id)
             if isinstance(r, tuple) and len(r) == 3 and r[0] == "func" and isinstance(r[2], ast.FunctionDef) \
-                    and len(body_without_docstring(r[2])) <= 6 and not r[2].decorator_list:
+                    and len(body_without_docstring(r[2])) <= 12 and not r[2].decorator_list \
+                    and not any(isinstance(x, ast.Name) and x.id == r[2].name for x in ast.walk(r[2])) \
+                    and not any(isinstance(x, (ast.Global, ast.Nonlocal, ast.FunctionDef, ast.Lambda)) for b_ in r[2].body for x in ast.walk(b_)):
                 h = _decision_tree_as_value(r[2])
                 kind = _helper_kind(h)
-                if kind == "value":
+                if kind:
                     return h, kind
             return None
         if isinstance(call, ast.Call) and isinstance(call.func, ast.Attribute) and isinstance(call.func.value, ast.Name) \
@@ -470,12 +572,39 @@ def _inline_helpers(prog: Program, cls: ClassInfo, fn: ast.FunctionDef, exclude:
 
     def generator_of(call: ast.AST):
         """a private generator method whose yields are plain `yield <expr>` statements (no yield from, no value returned)"""
-        if isinstance(call, ast.Call) and isinstance(call.func, ast.Attribute) and isinstance(call.func.value, ast.Name) \
+        h = None
+        if module_functions and isinstance(call, ast.Call) and isinstance(call.func, ast.Name) and call.func.id != fn.name and not call.keywords:
+            # a generator function of the package called by name
+            r_ = prog.resolve_name(cls.module, call.func.id)
+            if isinstance(r_, tuple) and len(r_) == 3 and r_[0] == "func" and isinstance(r_[2], ast.FunctionDef) \
+                    and any(isinstance(x, (ast.Yield, ast.YieldFrom)) for x in ast.walk(r_[2])) \
+                    and not any(isinstance(x, ast.Name) and x.id == r_[2].name for x in ast.walk(r_[2])) \
+                    and not any(isinstance(x, (ast.Global, ast.Nonlocal, ast.Lambda)) for x in ast.walk(r_[2])):
+                h = r_[2]
+                if h.decorator_list or h.args.vararg or h.args.kwarg:
+                    return None
+        if h is None and isinstance(call, ast.Call) and isinstance(call.func, ast.Attribute) and isinstance(call.func.value, ast.Name) \
                 and call.func.value.id == "self" and call.func.attr.startswith("_") and call.func.attr in methods \
                 and call.func.attr not in exclude and call.func.attr != fn.name:
             owner, h = methods[call.func.attr]
             if owner.is_abstract_method(call.func.attr) or h.decorator_list or h.args.vararg or h.args.kwarg:
                 return None
+        if h is not None:
+            if any(isinstance(x, ast.YieldFrom) for x in ast.walk(h)):
+                # `yield from X` as a statement is `for y in X: yield y`
+                h = copy.deepcopy(h)
+                h.__dict__.pop("_jfsa_canon", None)
+
+                class _YF(ast.NodeTransformer):
+                    def visit_Expr(self, node: ast.Expr):
+                        if isinstance(node.value, ast.YieldFrom):
+                            _COUNTER[0] += 1
+                            v = f"item@yieldfrom#{_COUNTER[0]}"
+                            loop = ast.For(target=ast.Name(id=v, ctx=ast.Store()), iter=node.value.value,
+                                           body=[ast.Expr(value=ast.Yield(value=ast.Name(id=v, ctx=ast.Load())))], orelse=[])
+                            return ast.fix_missing_locations(ast.copy_location(loop, node))
+                        return node
+                h = _YF().visit(h)
             ys = [x for x in ast.walk(h) if isinstance(x, (ast.Yield, ast.YieldFrom))]
             if not ys or any(isinstance(x, ast.YieldFrom) for x in ys):
                 return None
@@ -484,6 +613,17 @@ def _inline_helpers(prog: Program, cls: ClassInfo, fn: ast.FunctionDef, exclude:
                 return None
             if any(isinstance(x, ast.Return) and x.value is not None for x in ast.walk(h)):
                 return None
+            # a bare `return` ends the generator: expressible where the generator is inlined only if it sits directly in the single
+            # top-level loop of the generator body (then it is a `break` of that loop)
+            if any(isinstance(x, ast.Return) for x in ast.walk(h)):
+                body_ = flat(body_without_docstring(h))
+                loops_ = [x for x in body_ if isinstance(x, (ast.For, ast.While))]
+                if len(loops_) != 1 or body_[-1] is not loops_[0]:
+                    return None
+                inner_loops = [y for y in ast.walk(loops_[0]) if isinstance(y, (ast.For, ast.While)) and y is not loops_[0]]
+                rets_ = [x for x in ast.walk(h) if isinstance(x, ast.Return)]
+                if any(not any(r_ is y for y in ast.walk(loops_[0])) or any(r_ is y for il in inner_loops for y in ast.walk(il)) for r_ in rets_):
+                    return None
             return h
         return None
 
@@ -514,6 +654,25 @@ def _inline_helpers(prog: Program, cls: ClassInfo, fn: ast.FunctionDef, exclude:
 
     def do_block(b: List[ast.stmt], ends_function: bool) -> List[ast.stmt]:
         nonlocal changed
+        expanded: List[ast.stmt] = []
+        for st in b:
+            if isinstance(st, ast.Assign) and len(st.targets) == 1 and isinstance(st.value, ast.Call) and isinstance(st.value.func, ast.Name) \
+                    and st.value.func.id in ("list", "tuple") and len(st.value.args) == 1 and generator_of(st.value.args[0]) is not None:
+                _COUNTER[0] += 1
+                v_ = f"item@collect#{_COUNTER[0]}"
+                tl = copy.deepcopy(st.targets[0])
+                for x_ in ast.walk(tl):
+                    if hasattr(x_, "ctx"):
+                        x_.ctx = ast.Load()
+                init_ = ast.copy_location(ast.Assign(targets=[st.targets[0]], value=ast.List(elts=[], ctx=ast.Load())), st)
+                app_ = ast.Expr(value=ast.Call(func=ast.Attribute(value=tl, attr="append", ctx=ast.Load()), args=[ast.Name(id=v_, ctx=ast.Load())], keywords=[]))
+                loop_ = ast.copy_location(ast.For(target=ast.Name(id=v_, ctx=ast.Store()), iter=st.value.args[0], body=[app_], orelse=[]), st)
+                ast.fix_missing_locations(init_)
+                ast.fix_missing_locations(loop_)
+                expanded.extend([init_, loop_])
+            else:
+                expanded.append(st)
+        b = expanded
         new: List[ast.stmt] = []
         for k, st in enumerate(b):
             last = k == len(b) - 1
@@ -539,6 +698,9 @@ def _inline_helpers(prog: Program, cls: ClassInfo, fn: ast.FunctionDef, exclude:
                                     bind = ast.copy_location(ast.Assign(targets=[copy.deepcopy(st.target)], value=node.value.value), st)
                                     return [bind] + copy.deepcopy(st.body)
                                 return node
+
+                            def visit_Return(self, node):
+                                return ast.copy_location(ast.Break(), node)     # end of the generator = end of its single loop
                         wrapper = ast.Module(body=inst, type_ignores=[])
                         Y().visit(wrapper)
                         new.extend(wrapper.body)
@@ -716,7 +878,7 @@ def _append_loops(stmts: List[ast.stmt]) -> List[ast.stmt]:
     return out
 
 
-def _local_generators(fn: ast.AST) -> Dict[str, ast.GeneratorExp]:
+def _local_generators(fn: ast.AST) -> Dict[str, ast.AST]:
     """single-assignment locals bound to a generator expression whose every other occurrence is the iterable of a for statement"""
     cached = fn.__dict__.get("_jfsa_local_generators")
     if cached is not None:
@@ -724,7 +886,7 @@ def _local_generators(fn: ast.AST) -> Dict[str, ast.GeneratorExp]:
     out: Dict[str, ast.GeneratorExp] = {}
     stores = _stores(fn)
     for a in ast.walk(fn):
-        if isinstance(a, ast.Assign) and len(a.targets) == 1 and isinstance(a.targets[0], ast.Name) and isinstance(a.value, ast.GeneratorExp) \
+        if isinstance(a, ast.Assign) and len(a.targets) == 1 and isinstance(a.targets[0], ast.Name) and isinstance(a.value, (ast.GeneratorExp, ast.ListComp)) \
                 and stores.get(a.targets[0].id) == 1:
             name = a.targets[0].id
             loads = [x for x in ast.walk(fn) if isinstance(x, ast.Name) and x.id == name and isinstance(x.ctx, ast.Load)]
@@ -928,6 +1090,10 @@ def _worklists(stmts: List[ast.stmt]) -> List[ast.stmt]:
                     rest, extends = [], 0
                     for st in loop.body[1:]:
                         pushes = None
+                        # `if c.children: w.extend(..)`: pushing nothing for a leaf is the same traversal
+                        if isinstance(st, ast.If) and not st.orelse and len(st.body) == 1 and \
+                                ast.unparse(st.test) in (f"{c}.children", f"len({c}.children) > 0", f"len({c}.children) != 0", f"{c}.children != []"):
+                            st = st.body[0]
                         if isinstance(st, ast.Expr) and isinstance(st.value, ast.Call) and isinstance(st.value.func, ast.Attribute) \
                                 and st.value.func.attr in ("extend", "extendleft") and isinstance(st.value.func.value, ast.Name) \
                                 and st.value.func.value.id == w and len(st.value.args) == 1:
@@ -974,6 +1140,28 @@ def _small_loops(stmts: List[ast.stmt], fn: ast.AST) -> List[ast.stmt]:
     while i < len(stmts):
         s = stmts[i]
         nxt = stmts[i + 1] if i + 1 < len(stmts) else None
+        def as_chain(e: ast.AST) -> ast.AST:
+            """A + B (+ C) of names is the chain of A, B (, C) as far as iterating over it goes"""
+            parts = []
+
+            def flatten(x: ast.AST) -> bool:
+                if isinstance(x, ast.BinOp) and isinstance(x.op, ast.Add):
+                    return flatten(x.left) and flatten(x.right)
+                if isinstance(x, ast.Name):
+                    parts.append(x)
+                    return True
+                return False
+            if isinstance(e, ast.BinOp) and flatten(e) and 2 <= len(parts) <= 4:
+                return ast.copy_location(ast.Call(func=ast.Name(id="chain", ctx=ast.Load()), args=parts, keywords=[]), e)
+            return e
+        if isinstance(s, ast.For) and not s.orelse:
+            s.iter = as_chain(s.iter)
+        if isinstance(s, ast.If) and s.orelse and isinstance(nxt, ast.For) and isinstance(nxt.iter, ast.Name):
+            for b_ in (s.body, s.orelse):
+                if b_ and isinstance(b_[-1], ast.Assign) and len(b_[-1].targets) == 1 and isinstance(b_[-1].targets[0], ast.Name) \
+                        and b_[-1].targets[0].id == nxt.iter.id:
+                    b_[-1].value = as_chain(b_[-1].value)
+
         def is_chain(e: ast.AST) -> bool:
             return isinstance(e, ast.Call) and ast.unparse(e.func).split(".")[-1] == "chain" and not e.keywords and 2 <= len(e.args) <= 4 \
                 and all(isinstance(a_, ast.Name) or (isinstance(a_, ast.Call) and isinstance(a_.func, ast.Name) and a_.func.id in ("reversed", "list", "tuple")
@@ -1009,7 +1197,7 @@ def _small_loops(stmts: List[ast.stmt], fn: ast.AST) -> List[ast.stmt]:
                 h.body = _small_loops(h.body, fn)
         # (2)
         if isinstance(s, ast.For) and not s.orelse and isinstance(s.target, ast.Name) and isinstance(s.iter, (ast.Tuple, ast.List)) \
-                and 1 <= len(s.iter.elts) <= 4 and all(isinstance(e, ast.Name) or (isinstance(e, ast.Call) and isinstance(e.func, ast.Name)
+                and 1 <= len(s.iter.elts) <= 4 and all(isinstance(e, (ast.Name, ast.Constant)) or (isinstance(e, ast.Call) and isinstance(e.func, ast.Name)
                                                                                   and e.func.id in ("reversed", "list", "tuple") and len(e.args) == 1
                                                                                   and isinstance(e.args[0], ast.Name)) for e in s.iter.elts) and len(s.body) <= 3 \
                 and not any(isinstance(x, (ast.Break, ast.Continue)) for b_ in s.body for x in ast.walk(b_)) \
@@ -1263,6 +1451,14 @@ def _ifexp_statements(stmts: List[ast.stmt]) -> List[ast.stmt]:
                 return ast.copy_location(ast.Expr(value=c), s)
             out.append(ast.copy_location(ast.If(test=ie.test, body=[branch(ie.body)], orelse=[branch(ie.orelse)]), s))
             continue
+        # `for v in (T1 if c else T2): BODY`  ->  `if c: for v in T1: BODY  else: for v in T2: BODY`  (c is evaluated once, before the loop)
+        if isinstance(s, ast.For) and isinstance(s.iter, ast.IfExp) and not s.orelse and _is_pure(s.iter.test):
+            def loop(it: ast.AST) -> ast.stmt:
+                return ast.copy_location(ast.For(target=copy.deepcopy(s.target), iter=it, body=copy.deepcopy(s.body), orelse=[]), s)
+            new_if = ast.copy_location(ast.If(test=s.iter.test, body=[loop(s.iter.body)], orelse=[loop(s.iter.orelse)]), s)
+            ast.fix_missing_locations(new_if)
+            out.append(new_if)
+            continue
         out.append(s)
     return out
 
@@ -1304,8 +1500,8 @@ class _ExprNorm(ast.NodeTransformer):
     def _flatten(self, node):
         """(e(l) for l in (g for v in IT))  ->  (e(g) for v in IT)   for a simple g"""
         g0 = node.generators[0]
-        if isinstance(g0.iter, ast.GeneratorExp) and len(g0.iter.generators) == 1 and isinstance(g0.target, ast.Name) \
-                and self._simple(g0.iter.elt):
+        if isinstance(g0.iter, (ast.GeneratorExp, ast.ListComp)) and len(g0.iter.generators) == 1 and isinstance(g0.target, ast.Name) \
+                and (self._simple(g0.iter.elt) or _is_pure(g0.iter.elt)):
             inner_ = g0.iter
             sub = _Subst({g0.target.id: inner_.elt})
             new_first = ast.comprehension(target=inner_.generators[0].target, iter=inner_.generators[0].iter,
@@ -1450,7 +1646,7 @@ class _ExprNorm(ast.NodeTransformer):
 def _module_expression_helpers(tree: ast.Module) -> Dict[str, ast.FunctionDef]:
     out: Dict[str, ast.FunctionDef] = {}
     for st in tree.body:
-        if isinstance(st, ast.FunctionDef) and st.name.startswith("_") and not st.name.startswith("__") and not st.decorator_list \
+        if isinstance(st, ast.FunctionDef) and not st.name.startswith("__") and not st.decorator_list \
                 and not st.args.defaults and not st.args.vararg and not st.args.kwarg and not st.args.kwonlyargs:
             body = [x for x in st.body if not (isinstance(x, ast.Expr) and isinstance(x.value, ast.Constant))]
             if len(body) == 1 and isinstance(body[0], ast.Return) and body[0].value is not None \
@@ -1496,6 +1692,8 @@ def normalise_function(fn: ast.FunctionDef, prog: Optional[Program] = None, modu
         if dead:
             fn.body = prune(fn.body) or fn.body
     fn.body = _hoist_walrus(fn.body)
+    fn.body = _split_chained_assigns(fn.body)
+    fn.body = _get_or_create(fn.body)
     fn.body = _for_else_any(fn.body)
     fn.body = _ifexp_statements(fn.body)
     _zip_elements(fn)
@@ -1517,7 +1715,7 @@ def normalise_function(fn: ast.FunctionDef, prog: Optional[Program] = None, modu
             keep = []
             for st in stmts:
                 if isinstance(st, ast.Assign) and len(st.targets) == 1 and isinstance(st.targets[0], ast.Name) and st.targets[0].id in gens_ \
-                        and st.targets[0].id not in still and isinstance(st.value, ast.GeneratorExp):
+                        and st.targets[0].id not in still and isinstance(st.value, (ast.GeneratorExp, ast.ListComp)):
                     continue
                 for fld in ("body", "orelse", "finalbody"):
                     b = getattr(st, fld, None)
@@ -1541,8 +1739,313 @@ def normalise_function(fn: ast.FunctionDef, prog: Optional[Program] = None, modu
         if isinstance(x, ast.Name) and isinstance(x.ctx, ast.Load):
             loads[x.id] = loads.get(x.id, 0) + 1
     fn.body = _merge_adjacent(fn.body, counts, loads, _return_pairs(fn))
+    # `x = x` left over from unpacking a comprehension element into names it already had
+    def drop_self_assign(stmts: List[ast.stmt]) -> List[ast.stmt]:
+        keep = []
+        for st in stmts:
+            if isinstance(st, ast.Assign) and len(st.targets) == 1 and isinstance(st.targets[0], ast.Name) and isinstance(st.value, ast.Name) \
+                    and st.targets[0].id == st.value.id:
+                continue
+            for fld in ("body", "orelse", "finalbody"):
+                b = getattr(st, fld, None)
+                if isinstance(b, list) and b and isinstance(b[0], ast.stmt) and not isinstance(st, (ast.FunctionDef, ast.ClassDef)):
+                    setattr(st, fld, drop_self_assign(b) or [ast.copy_location(ast.Pass(), st)])
+            keep.append(st)
+        return keep
+    fn.body = drop_self_assign(fn.body) or fn.body
     _propagate(fn, prog)
+    loads_total: Dict[str, int] = {}
+    for x_ in ast.walk(fn):
+        if isinstance(x_, ast.Name) and isinstance(x_.ctx, ast.Load):
+            loads_total[x_.id] = loads_total.get(x_.id, 0) + 1
+    fn.body = _attribute_is_the_name(fn.body, _stores(fn), loads_total)
+    fn.body = [_FoldTupleIndex().visit(st) for st in fn.body]
+    # a comprehension over a comprehension that only appeared through the propagation of a local
+    if any(isinstance(x, (ast.ListComp, ast.GeneratorExp)) and isinstance(x.generators[0].iter, (ast.ListComp, ast.GeneratorExp))
+           for x in ast.walk(fn)):
+        class _FlattenOnly(ast.NodeTransformer):
+            def visit_ListComp(self, node):
+                self.generic_visit(node)
+                return _ExprNorm({}, {})._flatten(node)
+            visit_GeneratorExp = visit_ListComp
+        fn.body = [_FlattenOnly().visit(st) for st in fn.body]
     fn.body = _fix_ifs(fn.body)
+
+
+def _split_chained_assigns(stmts: List[ast.stmt]) -> List[ast.stmt]:
+    """`local = self.attr = V` (either order) -> `self.attr = V; local = self.attr` (the same object under both names)"""
+    out: List[ast.stmt] = []
+    for st in stmts:
+        for fld in ("body", "orelse", "finalbody"):
+            b = getattr(st, fld, None)
+            if isinstance(b, list) and b and isinstance(b[0], ast.stmt) and not isinstance(st, (ast.FunctionDef, ast.ClassDef)):
+                setattr(st, fld, _split_chained_assigns(b))
+        if isinstance(st, ast.Try):
+            for h in st.handlers:
+                h.body = _split_chained_assigns(h.body)
+        if isinstance(st, ast.Assign) and len(st.targets) == 2:
+            names = [t for t in st.targets if isinstance(t, ast.Name)]
+            attrs = [t for t in st.targets if isinstance(t, ast.Attribute) and isinstance(t.value, ast.Name) and t.value.id == "self"]
+            if len(names) == 1 and len(attrs) == 1:
+                first = ast.copy_location(ast.Assign(targets=[attrs[0]], value=st.value), st)
+                load = ast.Attribute(value=ast.Name(id="self", ctx=ast.Load()), attr=attrs[0].attr, ctx=ast.Load())
+                second = ast.copy_location(ast.Assign(targets=[names[0]], value=load), st)
+                ast.fix_missing_locations(first)
+                ast.fix_missing_locations(second)
+                out.extend([first, second])
+                continue
+        out.append(st)
+    return out
+
+
+def _attribute_is_the_name(stmts: List[ast.stmt], counts: Dict[str, int], loads_total: Dict[str, int]) -> List[ast.stmt]:
+    """
+    `x = CALL` immediately followed by `self.a = x` (x assigned nowhere else), with every later use of x in the statements that
+    follow in the same block and no other store to `self.a` there: the attribute is the name of the value -- rewritten to
+    `self.a = CALL` and `self.a` for x.
+    """
+    out = list(stmts)
+    i = 0
+    while i + 1 < len(out):
+        a, b = out[i], out[i + 1]
+        if isinstance(a, ast.Assign) and len(a.targets) == 1 and isinstance(a.targets[0], ast.Name) and isinstance(a.value, ast.Call) \
+                and counts.get(a.targets[0].id, 0) == 1 \
+                and isinstance(b, ast.Assign) and len(b.targets) == 1 and isinstance(b.targets[0], ast.Attribute) \
+                and isinstance(b.targets[0].value, ast.Name) and b.targets[0].value.id == "self" \
+                and isinstance(b.value, ast.Name) and b.value.id == a.targets[0].id:
+            x, attr = a.targets[0].id, b.targets[0].attr
+            rest = out[i + 2:]
+            restored = any(isinstance(n, ast.Attribute) and n.attr == attr and isinstance(n.ctx, (ast.Store, ast.Del))
+                           for st in rest for n in ast.walk(st))
+            calls_self = any(isinstance(n, ast.Call) and isinstance(n.func, ast.Attribute) and isinstance(n.func.value, ast.Name)
+                             and n.func.value.id == "self" and not n.func.attr.startswith("_is_") for st in rest for n in ast.walk(st))
+            loads_rest = sum(1 for st in rest for n in ast.walk(st) if isinstance(n, ast.Name) and n.id == x and isinstance(n.ctx, ast.Load))
+            if not restored and not calls_self and loads_rest + 1 == loads_total.get(x, 0):
+                new_store = ast.copy_location(ast.Assign(targets=[b.targets[0]], value=a.value), a)
+                load = ast.Attribute(value=ast.Name(id="self", ctx=ast.Load()), attr=attr, ctx=ast.Load())
+                sub = _Subst({x: load})
+                out = out[:i] + [new_store] + [sub.visit(st) for st in rest]
+                for st in out[i:]:
+                    ast.fix_missing_locations(st)
+                continue
+        i += 1
+    for st in out:
+        for fld in ("body", "orelse", "finalbody"):
+            blk = getattr(st, fld, None)
+            if isinstance(blk, list) and blk and isinstance(blk[0], ast.stmt) and not isinstance(st, (ast.FunctionDef, ast.ClassDef)):
+                setattr(st, fld, _attribute_is_the_name(blk, counts, loads_total))
+        if isinstance(st, ast.Try):
+            for h in st.handlers:
+                h.body = _attribute_is_the_name(h.body, counts, loads_total)
+    return out
+
+
+def _get_or_create(stmts: List[ast.stmt]) -> List[ast.stmt]:
+    """
+    `x = D.get(k)` followed by `if x is None: x = D[k] = V` (also `D[k] = V; x = D[k]`, `x = V; D[k] = x`) with V a call (never
+    None) is the look-up-or-create idiom: rewritten to `if k not in D: D[k] = V` followed by `x = D[k]`.
+    """
+    out: List[ast.stmt] = []
+    i = 0
+    while i < len(stmts):
+        st = stmts[i]
+        for fld in ("body", "orelse", "finalbody"):
+            b = getattr(st, fld, None)
+            if isinstance(b, list) and b and isinstance(b[0], ast.stmt) and not isinstance(st, (ast.FunctionDef, ast.ClassDef)):
+                setattr(st, fld, _get_or_create(b))
+        if isinstance(st, ast.Try):
+            for h in st.handlers:
+                h.body = _get_or_create(h.body)
+        nxt = stmts[i + 1] if i + 1 < len(stmts) else None
+        done = False
+        if isinstance(st, ast.Assign) and len(st.targets) == 1 and isinstance(st.targets[0], ast.Name) and isinstance(st.value, ast.Call) \
+                and isinstance(st.value.func, ast.Attribute) and st.value.func.attr == "get" and len(st.value.args) == 1 and not st.value.keywords \
+                and isinstance(nxt, ast.If) and not nxt.orelse and isinstance(nxt.test, ast.Compare) and len(nxt.test.ops) == 1 \
+                and isinstance(nxt.test.ops[0], ast.Is) and isinstance(nxt.test.left, ast.Name) and nxt.test.left.id == st.targets[0].id \
+                and isinstance(nxt.test.comparators[0], ast.Constant) and nxt.test.comparators[0].value is None \
+                and _is_pure(st.value.func.value) and _is_pure(st.value.args[0]):
+            x, d, k = st.targets[0].id, st.value.func.value, st.value.args[0]
+            slot = ast.unparse(ast.Subscript(value=d, slice=k, ctx=ast.Load()))
+            value = None
+            b = nxt.body
+            if len(b) == 1 and isinstance(b[0], ast.Assign) and len(b[0].targets) == 2 and isinstance(b[0].value, ast.Call) \
+                    and sorted(ast.unparse(t) for t in b[0].targets) == sorted([x, slot]):
+                value = b[0].value
+            elif len(b) == 2 and all(isinstance(q, ast.Assign) and len(q.targets) == 1 for q in b):
+                t0, t1 = ast.unparse(b[0].targets[0]), ast.unparse(b[1].targets[0])
+                if t0 == slot and t1 == x and isinstance(b[0].value, ast.Call) and ast.unparse(b[1].value) == slot:
+                    value = b[0].value
+                elif t0 == x and t1 == slot and isinstance(b[0].value, ast.Call) and ast.unparse(b[1].value) == x:
+                    value = b[0].value
+            if value is not None:
+                test = ast.Compare(left=copy.deepcopy(k), ops=[ast.NotIn()], comparators=[copy.deepcopy(d)])
+                store = ast.Assign(targets=[ast.Subscript(value=copy.deepcopy(d), slice=copy.deepcopy(k), ctx=ast.Store())], value=value)
+                guard = ast.copy_location(ast.If(test=test, body=[ast.copy_location(store, nxt.body[0])], orelse=[]), nxt)
+                load = ast.copy_location(ast.Assign(targets=[ast.Name(id=x, ctx=ast.Store())],
+                                                    value=ast.Subscript(value=copy.deepcopy(d), slice=copy.deepcopy(k), ctx=ast.Load())), st)
+                for n_ in (guard, load):
+                    ast.fix_missing_locations(n_)
+                out.extend([guard, load])
+                i += 2
+                done = True
+        if not done:
+            out.append(st)
+            i += 1
+    return out
+
+
+def _resolve_module_constants(tree: ast.Module) -> None:
+    """
+    A module-level name bound once to a literal constant (`_MINUS_INFINITY = -float("inf")`, `_NULL = ffi.NULL`, a number,
+    `attrgetter("time")`) and never rebound stands for that constant inside the functions of the module.
+    """
+    def constant(v: ast.AST) -> bool:
+        if isinstance(v, ast.Constant) and isinstance(v.value, (int, float)) and not isinstance(v.value, bool):
+            return True
+        if isinstance(v, ast.UnaryOp) and isinstance(v.op, (ast.USub, ast.UAdd)):
+            return constant(v.operand)
+        if isinstance(v, ast.Call) and isinstance(v.func, ast.Name) and v.func.id == "float" and len(v.args) == 1 \
+                and isinstance(v.args[0], ast.Constant) and isinstance(v.args[0].value, str):
+            return True
+        if isinstance(v, ast.Attribute) and isinstance(v.value, ast.Name) and (v.value.id, v.attr) in (("ffi", "NULL"), ("math", "inf")):
+            return True
+        if isinstance(v, ast.Call) and ast.unparse(v.func).split(".")[-1] == "attrgetter" and len(v.args) == 1 \
+                and isinstance(v.args[0], ast.Constant) and not v.keywords:
+            return True
+        return False
+    counts: Dict[str, int] = {}
+    values: Dict[str, ast.AST] = {}
+    for st in ast.walk(tree):
+        if isinstance(st, (ast.Assign, ast.AugAssign, ast.AnnAssign, ast.For, ast.NamedExpr, ast.With, ast.Import, ast.ImportFrom, ast.Global)):
+            pass
+    for st in tree.body:
+        for t in ([x for tt in st.targets for x in ast.walk(tt)] if isinstance(st, ast.Assign) else
+                  [st.target] if isinstance(st, (ast.AugAssign, ast.AnnAssign)) else []):
+            if isinstance(t, ast.Name):
+                counts[t.id] = counts.get(t.id, 0) + 1
+        if isinstance(st, ast.Assign) and len(st.targets) == 1 and isinstance(st.targets[0], ast.Name) and constant(st.value) \
+                and st.targets[0].id.startswith("_"):
+            values[st.targets[0].id] = st.value
+    for g in ast.walk(tree):
+        if isinstance(g, ast.Global):
+            for n in g.names:
+                counts[n] = counts.get(n, 0) + 2
+    values = {k: v for k, v in values.items() if counts.get(k) == 1}
+    if not values:
+        return
+
+    class Rewrite(ast.NodeTransformer):
+        def __init__(self, shadow: Set[str]) -> None:
+            self.shadow = shadow
+
+        def visit_Name(self, node: ast.Name):
+            if isinstance(node.ctx, ast.Load) and node.id in values and node.id not in self.shadow:
+                return ast.copy_location(copy.deepcopy(values[node.id]), node)
+            return node
+    for fn in [n for n in ast.walk(tree) if isinstance(n, (ast.FunctionDef, ast.AsyncFunctionDef))]:
+        shadow = {a.arg for a in fn.args.args + fn.args.kwonlyargs} | \
+            {x.id for x in ast.walk(fn) if isinstance(x, ast.Name) and isinstance(x.ctx, ast.Store)}
+        fn.body = [Rewrite(shadow).visit(st) for st in fn.body]
+
+
+def _resolve_delegations(tree: ast.Module) -> None:
+    """
+    A method (or function) whose whole body is `return f(a, b, ..)` with f a function of the same module and the arguments plain
+    names / attributes of its own is the function f under another name: its body is replaced by the body of f with the parameters
+    renamed.  (The usual product of "extract a module-level function for testability".)
+    """
+    funcs = {st.name: st for st in tree.body if isinstance(st, ast.FunctionDef)}
+    rebound = {x.id for st in tree.body if isinstance(st, ast.Assign) for t in st.targets for x in ast.walk(t) if isinstance(x, ast.Name)}
+
+    def plain(f: ast.FunctionDef) -> bool:
+        if f.name in rebound or f.decorator_list or f.args.vararg or f.args.kwarg or f.args.kwonlyargs or f.args.defaults:
+            return False
+        inner = [x for b in f.body for x in ast.walk(b)]
+        if any(isinstance(x, (ast.Global, ast.Nonlocal, ast.FunctionDef, ast.Lambda, ast.ClassDef, ast.Yield, ast.YieldFrom)) for x in inner):
+            return False
+        if any(isinstance(x, ast.Name) and x.id == f.name for x in inner):
+            return False
+        params = {a.arg for a in f.args.args}
+        return not any(isinstance(x, ast.Name) and isinstance(x.ctx, (ast.Store, ast.Del)) and x.id in params for x in inner)
+
+    def simple_arg(a: ast.AST) -> bool:
+        return isinstance(a, (ast.Name, ast.Constant)) or (isinstance(a, ast.Attribute) and simple_arg(a.value))
+    methods = [(None, st) for st in tree.body if isinstance(st, ast.FunctionDef)] + \
+        [(c, m) for c in tree.body if isinstance(c, ast.ClassDef) for m in c.body if isinstance(m, ast.FunctionDef)]
+    for _ in range(2):
+        for owner, m in methods:
+            body = [x for x in m.body if not (isinstance(x, ast.Expr) and isinstance(x.value, ast.Constant))]
+            if len(body) != 1 or not isinstance(body[0], ast.Return) or not isinstance(body[0].value, ast.Call):
+                continue
+            call = body[0].value
+            if not isinstance(call.func, ast.Name) or call.func.id not in funcs or call.keywords or call.func.id == m.name:
+                continue
+            f = funcs[call.func.id]
+            if not plain(f) or len(call.args) != len(f.args.args) or not all(simple_arg(a) for a in call.args):
+                continue
+            own = {a.arg for a in m.args.args + m.args.kwonlyargs}
+            f_locals = {x.id for b in f.body for x in ast.walk(b) if isinstance(x, ast.Name) and isinstance(x.ctx, ast.Store)}
+            if f_locals & own:
+                continue
+            env = {p.arg: a for p, a in zip(f.args.args, call.args)}
+            new_body = [_Subst(env).visit(copy.deepcopy(b)) for b in f.body
+                        if not (isinstance(b, ast.Expr) and isinstance(b.value, ast.Constant))]
+            doc = [x for x in m.body if isinstance(x, ast.Expr) and isinstance(x.value, ast.Constant)][:1]
+            for b in new_body:
+                for x in ast.walk(b):
+                    if hasattr(x, "lineno"):
+                        x.lineno = body[0].lineno
+                        x.end_lineno = body[0].lineno
+            m.body = doc + new_body
+
+
+def _inline_module_value_helpers(tree: ast.Module) -> None:
+    """
+    In a module-level function, `T = _h(a, ..)` with `_h` a private module-level function of the same module that runs a block of
+    statements and ends in its only `return <expr>` (checks extracted for testability) is replaced by that block with the
+    parameters bound and the locals renamed apart, followed by `T = <expr>`.  Methods get the same through canon().
+    """
+    funcs = {st.name: st for st in tree.body if isinstance(st, ast.FunctionDef)}
+    rebound = {x.id for st in tree.body if isinstance(st, ast.Assign) for t in st.targets for x in ast.walk(t) if isinstance(x, ast.Name)}
+
+    def helper(call: ast.AST, host: ast.FunctionDef):
+        if not (isinstance(call, ast.Call) and isinstance(call.func, ast.Name)):
+            return None
+        h = funcs.get(call.func.id)
+        if h is None or h is host or h.name in rebound or not h.name.startswith("_") or h.name.startswith("__"):
+            return None
+        inner = [x for b in h.body for x in ast.walk(b)]
+        if any(isinstance(x, (ast.Global, ast.Nonlocal, ast.FunctionDef, ast.Lambda, ast.ClassDef)) for x in inner):
+            return None
+        if any(isinstance(x, ast.Name) and x.id == h.name for x in inner):
+            return None
+        if _helper_kind(h) != "value" or len(body_without_docstring(h)) < 2:
+            return None        # one-expression helpers are beta-reduced by the expression normaliser
+        return h
+
+    def walk(stmts: List[ast.stmt], host: ast.FunctionDef) -> List[ast.stmt]:
+        out: List[ast.stmt] = []
+        for st in stmts:
+            for fld in ("body", "orelse", "finalbody"):
+                b = getattr(st, fld, None)
+                if isinstance(b, list) and b and isinstance(b[0], ast.stmt) and not isinstance(st, (ast.FunctionDef, ast.ClassDef)):
+                    setattr(st, fld, walk(b, host))
+            if isinstance(st, ast.Assign) and len(st.targets) == 1:
+                h = helper(st.value, host)
+                if h is not None and all(_is_pure(a) for a in st.value.args) and not st.value.keywords:
+                    inst = _instantiate(h, st.value, host)
+                    if inst and isinstance(inst[-1], ast.Return) and inst[-1].value is not None:
+                        last = ast.copy_location(ast.Assign(targets=st.targets, value=inst[-1].value), st)
+                        new = inst[:-1] + [last]
+                        for n_ in new:
+                            ast.fix_missing_locations(n_)
+                        out.extend(new)
+                        continue
+            out.append(st)
+        return out
+    for host in list(funcs.values()):
+        if any(isinstance(x, ast.Call) and isinstance(x.func, ast.Name) and x.func.id in funcs for b in host.body for x in ast.walk(b)):
+            host.body = walk(host.body, host)
 
 
 def _resolve_cffi_aliases(tree: ast.Module) -> None:
@@ -1605,6 +2108,9 @@ def normal_form_module(tree: ast.Module, prog: Optional[Program] = None) -> None
     class bodies -- sees one layout for the many ways the same routine can be written.  Line numbers are kept.
     """
     _resolve_cffi_aliases(tree)
+    _resolve_module_constants(tree)
+    _resolve_delegations(tree)
+    _inline_module_value_helpers(tree)
     fns = [n for n in ast.walk(tree) if isinstance(n, (ast.FunctionDef, ast.AsyncFunctionDef))]
     helpers = _module_expression_helpers(tree)
     for fn in reversed(fns):
@@ -1630,8 +2136,127 @@ def flat(stmts: List[ast.stmt]) -> List[ast.stmt]:
     return out
 
 
+def _inline_test_predicates(prog: Program, cls: ClassInfo, fn: ast.FunctionDef, exclude: Set[str], methods_too=True) -> None:
+    """
+    `if pred(a, ..): BODY else: ORELSE` where pred is a small decision-tree function of the package (module level or a private
+    method) -- only `if`, `return`, call statements and asserts -- is rewritten to the decision tree of pred with every
+    `return E` replaced by `if E: BODY else: ORELSE` (`return True` / `return False` by the branch itself).  The control flow is
+    exactly that of the call; rules that look for a guarded effect see the guard.
+    """
+    methods = prog.all_methods(cls) if methods_too else {}
+
+    def tree_only(stmts: List[ast.stmt]) -> bool:
+        for st in stmts:
+            if isinstance(st, ast.If):
+                if not tree_only(st.body) or not tree_only(st.orelse):
+                    return False
+            elif isinstance(st, ast.Return) or isinstance(st, ast.Assert) or isinstance(st, ast.Pass):
+                continue
+            elif isinstance(st, ast.Expr) and isinstance(st.value, (ast.Call, ast.Constant)):
+                continue
+            elif isinstance(st, ast.Assign) and len(st.targets) == 1 and isinstance(st.targets[0], ast.Name):
+                # a local that only names the value returned by the next statement
+                i = stmts.index(st)
+                nxt = stmts[i + 1] if i + 1 < len(stmts) else None
+                if not (isinstance(nxt, ast.Return) and nxt.value is not None and
+                        sum(1 for x in ast.walk(nxt.value) if isinstance(x, ast.Name) and x.id == st.targets[0].id) == 1):
+                    return False
+            else:
+                return False
+        return True
+
+    def resolve(call: ast.AST):
+        if not isinstance(call, ast.Call) or call.keywords or any(isinstance(a, ast.Starred) for a in call.args):
+            return None
+        h = None
+        skip = 0
+        if isinstance(call.func, ast.Name) and call.func.id != fn.name:
+            r = prog.resolve_name(cls.module, call.func.id)
+            if isinstance(r, tuple) and len(r) == 3 and r[0] == "func" and isinstance(r[2], ast.FunctionDef):
+                h = r[2]
+        elif methods_too and isinstance(call.func, ast.Attribute) and isinstance(call.func.value, ast.Name) and call.func.value.id == "self" \
+                and call.func.attr.startswith("_") and not call.func.attr.startswith("__") and call.func.attr in methods \
+                and call.func.attr not in exclude and call.func.attr != fn.name:
+            owner, h = methods[call.func.attr]
+            if owner.is_abstract_method(call.func.attr) or any(isinstance(d, ast.Name) and d.id == "staticmethod" for d in h.decorator_list):
+                return None
+            skip = 1
+        if h is None or h.decorator_list and skip == 0 or h.args.vararg or h.args.kwarg or h.args.kwonlyargs or h.args.defaults:
+            return None
+        body = body_without_docstring(h)
+        params = [a.arg for a in h.args.args][skip:]
+        if len(params) != len(call.args) or not (1 <= len(body) <= 8) or not tree_only(body) or not all(_is_pure(a) for a in call.args):
+            return None
+        if not any(isinstance(x, ast.Return) and x.value is not None for b in body for x in ast.walk(b)):
+            return None
+        stored = [x.id for b in body for x in ast.walk(b) if isinstance(x, ast.Name) and isinstance(x.ctx, ast.Store)]
+        if len(stored) != len(set(stored)) or set(stored) & set(params):
+            return None
+        if methods_too == "final" and skip == 1:
+            # read in place only where the callee is the same for every instance: not overridden below this class
+            if any(call.func.attr in c.methods and c is not methods[call.func.attr][0] for c in prog.subclasses(cls.name)):
+                return None
+        return body, dict(zip(params, call.args))
+
+    def expand(stmts: List[ast.stmt], env: Dict[str, ast.AST], body: List[ast.stmt], orelse: List[ast.stmt], at: ast.AST) -> List[ast.stmt]:
+        out: List[ast.stmt] = []
+        for i, st in enumerate(stmts):
+            if isinstance(st, ast.Return):
+                v = _Subst(env).visit(copy.deepcopy(st.value)) if st.value is not None else ast.Constant(value=None)
+                if isinstance(v, ast.Constant):
+                    out += copy.deepcopy(body if v.value else orelse)
+                else:
+                    out.append(ast.copy_location(ast.If(test=v, body=copy.deepcopy(body) or [ast.Pass()], orelse=copy.deepcopy(orelse)), at))
+                return out
+            if isinstance(st, ast.If):
+                rest = stmts[i + 1:]
+                t = _Subst(env).visit(copy.deepcopy(st.test))
+                b_ = expand(list(st.body) + rest, env, body, orelse, at) or [ast.Pass()]
+                o_ = expand(list(st.orelse) + rest, env, body, orelse, at)
+                out.append(ast.copy_location(ast.If(test=t, body=b_, orelse=o_), at))
+                return out
+            if isinstance(st, ast.Assign):
+                env = dict(env)
+                env[st.targets[0].id] = _Subst(env).visit(copy.deepcopy(st.value))
+                continue
+            c = _Subst(env).visit(copy.deepcopy(st))
+            for x in ast.walk(c):
+                if hasattr(x, "lineno"):
+                    x.lineno = getattr(at, "lineno", 1)
+                    x.end_lineno = getattr(at, "lineno", 1)
+            out.append(c)
+        return out + copy.deepcopy(orelse)
+
+    def walk(stmts: List[ast.stmt], depth: int) -> List[ast.stmt]:
+        out: List[ast.stmt] = []
+        for st in stmts:
+            for fld in ("body", "orelse", "finalbody"):
+                b = getattr(st, fld, None)
+                if isinstance(b, list) and b and isinstance(b[0], ast.stmt) and not isinstance(st, (ast.FunctionDef, ast.ClassDef)):
+                    setattr(st, fld, walk(b, depth))
+            if isinstance(st, ast.Try):
+                for h in st.handlers:
+                    h.body = walk(h.body, depth)
+            if isinstance(st, ast.If) and depth < 2:
+                test, negated = st.test, False
+                if isinstance(test, ast.UnaryOp) and isinstance(test.op, ast.Not):
+                    test, negated = test.operand, True
+                r = resolve(test)
+                if r is not None:
+                    hb, env = r
+                    body, orelse = (st.orelse, st.body) if negated else (st.body, st.orelse)
+                    new = expand(hb, env, list(body), list(orelse), st)
+                    for n_ in new:
+                        ast.fix_missing_locations(n_)
+                    out += walk(new, depth + 1)
+                    continue
+            out.append(st)
+        return out
+    fn.body = walk(fn.body, 0) or fn.body
+
+
 def canon(prog: Program, cls: Optional[ClassInfo], fn: ast.FunctionDef, exclude: Iterable[str] = (), helpers: bool = True,
-          locals_: bool = True, public: bool = False, module_functions: bool = False) -> ast.FunctionDef:
+          locals_: bool = True, public: bool = False, module_functions: bool = True) -> ast.FunctionDef:
     if prog is None and cls is not None:
         prog = getattr(cls, "prog", None)
     # the canonical form depends on the class only through the helpers its self-calls resolve to: key by that resolution, so
@@ -1664,6 +2289,8 @@ def canon(prog: Program, cls: Optional[ClassInfo], fn: ast.FunctionDef, exclude:
     finally:
         fn.__dict__["_jfsa_canon"] = saved
     if helpers and cls is not None:
+        if module_functions:
+            _inline_test_predicates(prog, cls, f, set(exclude))
         _inline_helpers(prog, cls, f, set(exclude), 0, public, module_functions)
     if locals_:
         normalise_function(f, prog)
